@@ -624,3 +624,79 @@ def _(c):
         worst_it = max(worst_it, count["n"])
     c.ensure("kepler_equation_solved", worst < 1e-7)
     c.ensure("terminates", worst_it < 1000)
+
+
+# ---------------------------------------------------------------------------------------------
+# the forms are views of one state "for any central body": a state held in a form whose definition involves mu, moved to a frame about another body
+# ---------------------------------------------------------------------------------------------
+
+def _grid_centres(tier, rng):
+    """forms {keplerian, keplerian_eccentric, keplerian_mean, keplerian_circular, keplerian_mean_circular, equinoctial, tle, spherical, cylindrical} x 3 lunar orbits
+    x direction {Moon-centred -> Earth-centred, Earth-centred -> Moon-centred} x {in place, by copy}"""
+    for f in range(9):
+        for o in range(3):
+            for dirn in (0, 1):
+                yield {"form": f, "orbit": o, "dir": dirn, "inplace": (f + o + dirn) % 2}
+
+
+_C01_CENTRES = {}
+
+
+def _luna():
+    """a Moon-like centre at a fixed offset (position, velocity) from the Earth's: no kernel needed; registered once per process"""
+    if "f" not in _C01_CENTRES:
+        from beyond import constants
+        from beyond.frames import orient
+        from beyond.frames.center import Center, Earth
+        from beyond.frames.frames import Frame
+        luna = Center("C01Luna", body=constants.Moon)
+        luna.add_link(Earth, orient.EME2000, [3.6e8, 1.2e8, 4.0e7, -300.0, 950.0, 120.0])
+        _C01_CENTRES["f"] = Frame("C01LunaFrame", orient.EME2000, luna)
+    return _C01_CENTRES["f"]
+
+
+@contract("C01", "native.other_central_body", funcs=[f"{SV}:StateVector.frame.fset", f"{SV}:StateVector.copy", f"{FORM}.__call__"], grid=_grid_centres, level="bounded")
+def _(c):
+    """bounded: a state held in any form and moved (in place or by copy) to a frame about ANOTHER central body keeps its form, and its six numbers are those obtained
+    by converting the cartesian state in the arrival frame with the arrival body's mu (form change and frame change commute: 1e-9 relative on the cartesian state
+    they stand for); the textbook a and e (vis-viva, eccentricity vector with the arrival mu) for the keplerian forms"""
+    from beyond.orbits import StateVector
+    from beyond.dates import Date
+    from beyond import constants
+    from contracts.c19_mission import _kep2cart
+    forms = ["keplerian", "keplerian_eccentric", "keplerian_mean", "keplerian_circular", "keplerian_mean_circular", "equinoctial", "tle", "spherical", "cylindrical"]
+    form = forms[c.integer("form")]
+    luna = _luna()
+    a, e, inc = [(5.0e6, 0.3, 1.05), (2.5e6, 0.05, 2.4), (9.0e6, 0.6, 0.4)][c.integer("orbit")]
+    r0, v0 = _kep2cart(a, e, inc, 1.0, 2.0, 0.7, constants.Moon.mu)
+    date = Date(2020, 6, 1)
+    cart_moon = StateVector(list(r0) + list(v0), date, "cartesian", luna)
+    cart_earth = cart_moon.copy(frame="EME2000")
+    off = np.array([3.6e8, 1.2e8, 4.0e7, -300.0, 950.0, 120.0])
+    c.ensure("offset_applied", bool(np.allclose(np.asarray(cart_earth, dtype=float), np.asarray(cart_moon, dtype=float) + off, rtol=1e-13, atol=1e-6)))
+    if c.integer("dir") == 0:
+        src, dst_frame, want_cart, mu_dst = cart_moon, "EME2000", np.asarray(cart_earth, dtype=float), constants.Earth.mu
+    else:
+        src, dst_frame, want_cart, mu_dst = cart_earth, luna, np.asarray(cart_moon, dtype=float), constants.Moon.mu
+    # about the Earth a lunar orbiter may be on a hyperbola: the forms not defined for open orbits (C01.native.roundtrip: HYPER_OK) are left out there
+    # (at departure as well as at arrival)
+    energy = lambda x, mu_: np.linalg.norm(x[3:]) ** 2 / 2 - mu_ / np.linalg.norm(x[:3])
+    mu_src = constants.Moon.mu if c.integer("dir") == 0 else constants.Earth.mu
+    if energy(want_cart, mu_dst) >= 0 or energy(np.asarray(src, dtype=float), mu_src) >= 0:
+        c.require(form in HYPER_OK)
+    held = src.copy(form=form)
+    if c.integer("inplace"):
+        moved = held.copy()
+        moved.frame = dst_frame
+    else:
+        moved = held.copy(frame=dst_frame)
+    c.ensure("form_kept", moved.form.name == form and (moved.frame.name == (dst_frame if isinstance(dst_frame, str) else dst_frame.name)))
+    back = np.asarray(moved.copy(form="cartesian"), dtype=float)
+    c.ensure("stands_for_the_same_state", bool(np.linalg.norm(back[:3] - want_cart[:3]) <= 1e-9 * np.linalg.norm(want_cart[:3])
+                                               and np.linalg.norm(back[3:] - want_cart[3:]) <= 1e-9 * np.linalg.norm(want_cart[3:])))
+    if form in ("keplerian", "keplerian_eccentric", "keplerian_mean"):
+        r, v = want_cart[:3], want_cart[3:]
+        rn, vn = np.linalg.norm(r), np.linalg.norm(v)
+        a_ref = 1 / (2 / rn - vn ** 2 / mu_dst)
+        e_ref = np.linalg.norm(((vn ** 2 - mu_dst / rn) * r - np.dot(r, v) * v) / mu_dst)
+        c.ensure("textbook_a_e_with_the_arrival_mu", bool(abs(float(moved[0]) / a_ref - 1) <= 1e-9 and abs(float(moved[1]) - e_ref) <= 1e-9 * max(1.0, e_ref)))
